@@ -2,7 +2,7 @@
 import numpy as np
 import impl, cases
 from gen import rng_for
-from .common import tolist
+from .common import tolist, keyword_call_differs
 
 LEAN = "PystogVerif.Props.C05"
 RK, GK = ["S", "F", "FK", "DCS"], ["g", "G", "GK"]
@@ -30,6 +30,9 @@ def evaluate(case):
     fails = []
     with np.errstate(all="ignore"):
         got = getattr(tr, name)(x, y, xo, dy, **kw)
+        kf = keyword_call_differs(tr, case["entry"], [x, y, xo, dy], kw, got)
+        if kf:
+            fails.append(kf)
         q2r = X in RK
         hub_in, hub_out = ("F", "G") if q2r else ("G", "F")
         if X == hub_in:
